@@ -434,10 +434,11 @@ def include_errors(chk, root):
 
 def tree_hash(d):
     h = hashlib.sha256()
-    for fn in sorted(os.listdir(d)):
-        p = os.path.join(d, fn)
-        if os.path.isfile(p):
-            h.update(fn.encode() + b'\0' + open(p, 'rb').read() + b'\0')
+    for base, dirs, fns in sorted(os.walk(d)):
+        for fn in sorted(fns):
+            p = os.path.join(base, fn)
+            if os.path.isfile(p):
+                h.update(os.path.relpath(p, d).encode() + b'\0' + open(p, 'rb').read() + b'\0')
     return h.hexdigest()
 
 
@@ -713,6 +714,18 @@ def collision_cases(chk, root):
          ['a.prophy', 'b.prophy'], ['--cpp_out', '@O', '--python_out', '@O']),
         ('an output that cannot be written: a dangling link named b.py (D185)',
          {'a.prophy': 'struct A { u8 a; };\n', 'b.prophy': 'struct B { u8 b; };\n', 'out/b.py': '->nowhere/b.py'},
+         ['a.prophy', 'b.prophy'], ['--python_out', '@O']),
+        ('two outputs that are one file: a.py is a symbolic link to b.py (D194)',
+         {'a.prophy': 'struct A { u8 a; };\n', 'b.prophy': 'struct B { u8 b; };\n', 'out/b.py': '', 'out/a.py': '->b.py'},
+         ['a.prophy', 'b.prophy'], ['--python_out', '@O']),
+        ('two outputs that are one file: b.py is a dangling link to a.py (D194)',
+         {'a.prophy': 'struct A { u8 a; };\n', 'b.prophy': 'struct B { u8 b; };\n', 'out/b.py': '->a.py'},
+         ['a.prophy', 'b.prophy'], ['--python_out', '@O']),
+        ('a failing run with a dangling link among the outputs: its target is not left behind (D194)',
+         {'a.prophy': 'struct A { u8 a; };\n', 'b.prophy': 'struct B { u8 b; };\n', 'out/a.py': '->sub/a.py', 'out/sub/keep': 'kept', 'out/b.py/keep': ''},
+         ['a.prophy', 'b.prophy'], ['--python_out', '@O']),
+        ('a write that fails after the first output was written: b.py is a link to /dev/full (D194)',
+         {'a.prophy': 'struct A { u8 a; };\n', 'b.prophy': 'struct B { u8 b; };\n', 'out/b.py': '->/dev/full'},
          ['a.prophy', 'b.prophy'], ['--python_out', '@O']),
         ('an output whose name is longer than the file system allows (D185)',
          {'a.prophy': 'struct A { u8 a; };\n', 'b' * 248 + '.prophy': 'struct B { u8 b; };\n'},
